@@ -10,7 +10,7 @@ CONFIGS = ['prod']
 EXPLANATION = (
     'The whole property (convergence for all histories, delivery schedules and repair orders) is a runtime statement and is NOT decided. '
     'S3.SEM: the supervision of one repair exchange interpreted against scripted progress histories and both outcomes of the removal task (Ok <=> done seen, never expired, removals joined '
-    'and succeeded). Decided necessary conditions of repair-based convergence: S1 source-id discipline — every keyspace message built on the client / '
+    'and succeeded). S7.SEM: the poller interpreted over three polling rounds against two peers — every keyspace a peer lists whose change stamp is not the one recorded at that peer\'s last successful exchange of it has its difference computed against that peer and is exchanged with it (the tracker and KeyspaceTimestamps::diff are the real code). Decided necessary conditions of repair-based convergence: S1 source-id discipline — every keyspace message built on the client / '
     'consistency-service path carries the ordered-stream source id and every one built on the repair path carries the repair source id, '
     'the two constants differ and are below the number of sources (mixing the ordered and the unordered stream on one source makes a '
     'replica refuse operations it lacks, permanently); S2 every locally accepted client mutation is handed to the batch distributor on '
@@ -212,6 +212,10 @@ def check_S3(ctx, facts):
     # three begin_keyspace_sync clauses below, which are evaluated only when a construct is not modelled
     import sync_abs
     sup_sem = sync_abs.check_supervision(ctx, facts, 'C01.S3.SEM')
+    # S7.SEM: which keyspaces of which peer are exchanged, over three polling rounds (poll_abs); no structural fallback — a tree the
+    # summary cannot read is recorded as "not decided" in the evidence, never reported
+    import poll_abs
+    poll_abs.check_polling(ctx, facts, 'C01.S7.SEM')
     for body in ([] if sup_sem else bs):
         flow = Flow(body)
         calls = list(body.calls())
